@@ -140,98 +140,91 @@ fn corrected(m: f64, ec: f64) -> f64 {
     m - (m - m * m) * ec
 }
 
-// @harness prop=C16,C17 tier=quick timeout=3000
-// @about public API only, 1 kHz (capacity 18, 2 newest samples excluded, mean of the 16 oldest), default resistor triple (20k, 820, 1M): fresh controller; optionally an EARLIER complete press at another position followed by out-of-range samples (symbolic choice), then an unbroken run of 18 + j (j in 0..=2, symbolic) in-range samples on a 2^-10 grid: value() lies in [0,1]; lies between the corrected minimum and maximum of the 16 contributing samples (+-4 ulp); is bit-identical to the value of a second real controller that saw only the current run with DIFFERENT excluded newest samples and no earlier press (independence of the earlier press and of the finger-lift allowance); after the finger lifts the value is retained bit for bit
-#[kani::proof]
-#[kani::unwind(24)]
-fn c16_value_is_mean_of_current_press_only() {
-    const CAP: usize = sample_rate_to_capacity(1_000);
-    let mut a: RibbonController<CAP> = RibbonController::new(1_000.0, 20.0e3, 820.0, 1.0e6);
-    let mut b: RibbonController<CAP> = RibbonController::new(1_000.0, 20.0e3, 820.0, 1.0e6);
-    let bound = a.finger_press_high_boundary;
-    let ec = a.error_const as f64;
-    let earlier: bool = kani::any();
-    if earlier {
-        // an earlier press somewhere else on the ribbon, then the finger lifts
-        let pos: u16 = kani::any();
-        kani::assume(pos < 900);
-        let mut i = 0;
-        while i < CAP + 1 {
-            a.poll(pos as f32 / 1024.0);
-            i += 1;
+// @family prop=C16 name=c16_value_independence macro=c16_value_independence n=3 quick=1 thorough=1,2 tseeded=0 timeout=2400
+// @about public API only, slice = sample rate {0: 200 Hz (capacity 4, allowance 0), 1: 500 Hz (capacity 9, the newest 1 sample excluded, mean of the 8 oldest), 2: 1 kHz (capacity 18, newest 2 excluded)}, default resistor triple (20k, 820, 1M): controller A: optionally an EARLIER complete press at another position followed by out-of-range samples (symbolic choice), then an unbroken run of capacity + j (j in 0..=1, symbolic) in-range samples on a 2^-10 grid; controller B: fresh, the same run but with DIFFERENT values in the excluded newest samples: both report the press, value() lies in [0,1] and is bit-identical in A and B (independent of the earlier press and of the finger-lift allowance); after the finger lifts, and while a new run is still shorter than the capture, value() is retained bit for bit
+macro_rules! c16_value_independence {
+    ($name:ident, $k:expr) => {
+        #[kani::proof]
+        #[kani::unwind(24)]
+        fn $name() {
+            const FS: u32 = [200, 500, 1_000][$k];
+            const CAP: usize = sample_rate_to_capacity(FS);
+            let mut a: RibbonController<CAP> = RibbonController::new(FS as f32, 20.0e3, 820.0, 1.0e6);
+            let mut b: RibbonController<CAP> = RibbonController::new(FS as f32, 20.0e3, 820.0, 1.0e6);
+            let lift = a.num_to_discard_at_end;
+            let earlier: bool = kani::any();
+            if earlier {
+                let pos: u16 = kani::any();
+                kani::assume(pos < 900);
+                let mut i = 0;
+                while i < CAP + 1 {
+                    a.poll(pos as f32 / 1024.0);
+                    i += 1;
+                }
+                a.poll(1.0);
+                a.poll(1.0);
+                let _ = a.finger_just_pressed();
+                let _ = a.finger_just_released();
+            }
+            let j: usize = kani::any();
+            kani::assume(j <= 1);
+            let raw: [u16; CAP + 1] = kani::any();
+            let other: [u16; 2] = kani::any();
+            let mut i = 0;
+            while i < CAP + 1 {
+                kani::assume(raw[i] < 960); // in range: 960/1024 < boundary (0.9606)
+                i += 1;
+            }
+            kani::assume(other[0] < 960 && other[1] < 960);
+            let n = CAP + j;
+            let mut i = 0;
+            while i < CAP + 1 {
+                if i < n {
+                    let s = raw[i] as f32 / 1024.0;
+                    a.poll(s);
+                    // b: same run, but the newest `lift` samples (the finger-lift allowance) differ
+                    let sb = if i + lift >= n { other[(n - 1 - i) % 2] as f32 / 1024.0 } else { s };
+                    b.poll(sb);
+                }
+                i += 1;
+            }
+            vassert!(a.finger_is_pressing() && b.finger_is_pressing(), "C16/press-reported-after-full-capture");
+            let v = a.value();
+            vassert!(v >= 0.0 && v <= 1.0, "C16/value/in-[0,1]");
+            vassert!(v.to_bits() == b.value().to_bits(), "C16/value/independent-of-earlier-press-and-of-excluded-newest-samples");
+            let before = a.value();
+            a.poll(1.0);
+            vassert!(!a.finger_is_pressing() && a.value().to_bits() == before.to_bits(), "C16/value/retained-after-lift");
+            a.poll(raw[0] as f32 / 1024.0);
+            vassert!(a.value().to_bits() == before.to_bits(), "C16/value/retained-until-next-press-is-reported");
+            vcover!(earlier && j == 1, "witness: earlier press, window slid by one");
+            vcover!(!earlier && j == 0, "witness: first press, exactly the capture length");
         }
-        a.poll(1.0);
-        a.poll(1.0);
-        let _ = a.finger_just_pressed();
-        let _ = a.finger_just_released();
-    }
-    let j: usize = kani::any();
-    kani::assume(j <= 2);
-    let raw: [u16; CAP + 2] = kani::any();
-    let other: [u16; 2] = kani::any();
-    let mut i = 0;
-    while i < CAP + 2 {
-        kani::assume(raw[i] < 960); // in range: 960/1024 < boundary (0.9606)
-        i += 1;
-    }
-    kani::assume(other[0] < 960 && other[1] < 960);
-    let n = CAP + j;
-    let mut i = 0;
-    while i < CAP + 2 {
-        if i < n {
-            let s = raw[i] as f32 / 1024.0;
-            a.poll(s);
-            // b: same run, but the two newest samples (the finger-lift allowance) differ
-            let sb = if i + 2 >= n { other[n - 1 - i] as f32 / 1024.0 } else { s };
-            b.poll(sb);
-        }
-        i += 1;
-    }
-    vassert!(a.finger_is_pressing() && b.finger_is_pressing(), "C16/press-reported-after-full-capture");
-    let v = a.value();
-    vassert!(v >= 0.0 && v <= 1.0, "C16/value/in-[0,1]");
-    vassert!(v.to_bits() == b.value().to_bits(), "C16/value/independent-of-earlier-press-and-of-excluded-newest-samples");
-    // contributing samples: the 16 oldest of the last 18 = raw[j .. j+16]
-    let mut lo = 1.0_f64;
-    let mut hi = 0.0_f64;
-    let mut k = 0;
-    while k < CAP + 2 {
-        if k >= j && k < j + (CAP - 2) {
-            let s = raw[k] as f64 / 1024.0;
-            if s < lo { lo = s; }
-            if s > hi { hi = s; }
-        }
-        k += 1;
-    }
-    let tol = 4.0 * 1.1920929e-7;
-    let vv = v as f64 * bound as f64;
-    vassert!(vv >= corrected(lo, ec) - tol && vv <= corrected(hi, ec) + tol, "C16/value/between-corrected-min-and-max-of-contributing-samples");
-    // finger lifted: value retained
-    let before = a.value();
-    a.poll(1.0);
-    vassert!(!a.finger_is_pressing() && a.value().to_bits() == before.to_bits(), "C16/value/retained-after-lift");
-    a.poll(raw[0] as f32 / 1024.0);
-    vassert!(a.value().to_bits() == before.to_bits(), "C16/value/retained-until-next-press-is-reported");
-    vcover!(earlier && j == 2, "witness: earlier press, window slid by two");
-    vcover!(!earlier && j == 0, "witness: first press, exactly the capture length");
-    vcover!(lo < hi, "witness: samples differ");
+    };
 }
 
-// @harness prop=C16 tier=quick timeout=3000
-// @about monotonicity, 1 kHz, default resistor triple, public API: two fresh controllers fed the same unbroken run of 18 in-range samples on a 2^-10 grid except that ONE contributing sample (symbolic index among the 16 averaged) is larger in the second run: the second value is not lower (tolerance 2 ulp)
+// @harness prop=C16 tier=quick timeout=2400
+// @about public API only, 200 Hz (capacity 4: the mean of 4 samples), default resistor triple: two fresh controllers fed an unbroken run of 4 in-range samples on a 2^-10 grid, identical except that ONE sample (symbolic index) is larger in the second run: value() of the first lies between the corrected minimum and maximum of its samples (+-4 ulp; correction m - (m - m^2)*c evaluated in f64) and the second value is not lower (2 ulp)
 #[kani::proof]
-#[kani::unwind(21)]
-fn c16_value_monotone_in_each_contributing_sample() {
-    const CAP: usize = sample_rate_to_capacity(1_000);
-    let mut a: RibbonController<CAP> = RibbonController::new(1_000.0, 20.0e3, 820.0, 1.0e6);
-    let mut b: RibbonController<CAP> = RibbonController::new(1_000.0, 20.0e3, 820.0, 1.0e6);
+#[kani::unwind(7)]
+fn c16_value_between_min_max_and_monotone() {
+    const CAP: usize = sample_rate_to_capacity(200);
+    let mut a: RibbonController<CAP> = RibbonController::new(200.0, 20.0e3, 820.0, 1.0e6);
+    let mut b: RibbonController<CAP> = RibbonController::new(200.0, 20.0e3, 820.0, 1.0e6);
+    let bound = a.finger_press_high_boundary;
+    let ec = a.error_const as f64;
     let raw: [u16; CAP] = kani::any();
     let idx: usize = kani::any();
     let up: u16 = kani::any();
-    kani::assume(idx < CAP - 2 && up < 960);
+    kani::assume(idx < CAP && up < 960);
+    let mut lo = 1.0_f64;
+    let mut hi = 0.0_f64;
     let mut i = 0;
     while i < CAP {
         kani::assume(raw[i] < 960);
+        let s = raw[i] as f64 / 1024.0;
+        if s < lo { lo = s; }
+        if s > hi { hi = s; }
         i += 1;
     }
     kani::assume(up >= raw[idx]);
@@ -241,9 +234,13 @@ fn c16_value_monotone_in_each_contributing_sample() {
         b.poll(if i == idx { up } else { raw[i] } as f32 / 1024.0);
         i += 1;
     }
-    vassert!(a.finger_is_pressing() && b.finger_is_pressing(), "C16/monotone/both-pressed");
+    vassert!(a.finger_is_pressing() && b.finger_is_pressing(), "C16/press-reported-after-full-capture");
+    let tol = 4.0 * 1.1920929e-7;
+    let vv = a.value() as f64 * bound as f64;
+    vassert!(vv >= corrected(lo, ec) - tol && vv <= corrected(hi, ec) + tol, "C16/value/between-corrected-min-and-max-of-contributing-samples");
     vassert!(b.value() >= a.value() - 2.0 * 1.1920929e-7, "C16/value/does-not-decrease-when-a-contributing-sample-increases");
     vcover!(up > raw[idx] && b.value() > a.value(), "witness: value rose");
+    vcover!(lo < hi, "witness: samples differ");
 }
 
 // @harness prop=C16,C17 tier=quick timeout=1200
